@@ -383,7 +383,9 @@ pub fn history(cx: &mut Ctx, family: &str, maxops: u64) {
                     cx.bump("forgotten");
                 }
                 let f = fuse_for(cx, &h);
-                op_drain_filter(cx, s, take, d, j, forget, f);
+                // an element whose destructor panics while DrainFilter's Drop is consuming the rest
+                let bomb = if j.is_some() && !forget && f.is_none() && !take.is_empty() && cx.rng.chance(1, 2) { Some(take[cx.rng.below(take.len() as u64) as usize]) } else { None };
+                crate::op_drain_filter_bomb(cx, s, take, d, j, forget, f, bomb);
             }
             "drain" => {
                 let n = cx.maps[s].as_ref().unwrap().len() as u64;
@@ -457,7 +459,7 @@ pub fn history(cx: &mut Ctx, family: &str, maxops: u64) {
                 if cx.maps[d].is_some() {
                     op_drop(cx, d);
                 }
-                let hb2 = hb_for(cx, kinds);
+                let hb2 = if cx.rng.chance(1, 2) { HB::default() } else { hb_for(cx, kinds) };
                 op_from_iter(cx, d, hb2, keys, hint);
             }
             "clone" => {
